@@ -1119,6 +1119,17 @@ Proof.
   intros Ho HQ o2 os2. unfold rupd. destruct (Nat.eqb o2 o); [|apply HQ]. intros [= <-] _ Ha. left. now apply Ho.
 Qed.
 
+Lemma Qs_upd_owned2 (m : @romap A) k k' o os' :
+  (so_acquired (r_so os') = false -> so_queue (r_so os') = []) -> Qs m k ->
+  (forall top o2, o2 <> o -> In (SIEnsure top o2) k -> In (SIEnsure top o2) k') ->
+  Qs (rupd m o os') k'.
+Proof.
+  intros Ho HQ Hk o2 os2. unfold rupd. destruct (Nat.eqb o2 o) eqn:E.
+  - intros [= <-] _ Ha. left. now apply Ho.
+  - apply Nat.eqb_neq in E. intros Hm Hs Ha. destruct (HQ o2 os2 Hm Hs Ha) as [H|[top H]]; [now left|].
+    right. exists top. now apply Hk.
+Qed.
+
 Lemma in_tail_ne {X} (x i : X) k : In x (i :: k) -> x <> i -> In x k.
 Proof. intros [->|H] Hne; [congruence|exact H]. Qed.
 
@@ -1278,7 +1289,6 @@ Proof.
   intros (I & HJ0 & HQ0 & _). destruct c as [s m k l]. cbn [sc_st sc_obs sc_k] in *.
   destruct k as [|i k]; [unfold ReplaySched.sstep; cbn; split; assumption|].
   (* dropping the head instruction (it is not a re-scheduling / not an ensure) and pushing others *)
-  assert (HJt : i <> SIResched (match i with SIResched o => o | _ => 0%nat end) \/ True) by now right.
   assert (Hjdrop : forall pre, (forall o, i <> SIResched o) -> J s m (emb (pre ++ k))).
   { intros pre Hi. eapply J_k_mono; [|exact HJ0]. apply emb_mono. intros o H. apply in_push.
     apply (in_tail_ne _ i); [exact H|]. intros E. exact (Hi o (eq_sym E)). }
@@ -1368,7 +1378,7 @@ Proof.
     destruct (m o) as [os|] eqn:Hm; cbn [sc_st sc_obs sc_k].
     2:{ split; [apply (HJ [])|]. intros o2 os2 Hm2 Hs Ha. destruct (HQ0 o2 os2 Hm2 Hs Ha) as [H|[t2 H]]; [now left|].
         right. exists t2. apply (in_tail_ne _ _ _ H). intros [= _ ->]. congruence. }
-    destruct (proj2 (HJ []) o os Hm) as (F & C & Lv).
+    destruct (proj2 (HJ (if inl sync top then [SIDrain] else [])) o os Hm) as (F & C & Lv).
     assert (Hk' : drain_if sync top k = (if inl sync top then [SIDrain] else []) ++ k)
       by (unfold drain_if; destruct (inl sync top); reflexivity).
     rewrite Hk'.
@@ -1376,17 +1386,346 @@ Proof.
                   (HJ (if inl sync top then [SIDrain] else [])) F C Lv eq_refl) as HJ2.
     pose proof (ensure_active_owned o s (r_so os) F) as Hown.
     destruct (ensure_active o s (r_so os)) as [s' so']. cbn [fst snd sc_st sc_obs sc_k] in *.
-    split; [exact HJ2|]. apply Qs_upd_owned; [exact Hown|].
-    intros o2 os2 Hm2 Hs Ha. destruct (Nat.eq_dec o2 o) as [->|Hne].
-    + (* superseded by the update *) destruct (HQ0 o os2 Hm2 Hs Ha) as [H|[t2 H]]; [now left|].
-      rewrite Hm in Hm2. injection Hm2 as <-.
-      (* either way the entry for o is overwritten: any answer is fine, give the left one if owned *)
-      destruct H as [[= _]|H]; [|right; exists t2; now apply in_push].
-      right. exists t2. apply in_push.
-      (* the head was this very instruction: use the fact that the update overrides o *)
-      exfalso. revert Hown. intros _. exact (False_ind _ (ltac:(idtac) : False)).
-    + destruct (HQ0 o2 os2 Hm2 Hs Ha) as [H|[t2 H]]; [now left|]. right. exists t2. apply in_push.
-      apply (in_tail_ne _ _ _ H). intros [= _ E]. congruence.
-Abort.
+    split; [exact HJ2|]. apply (Qs_upd_owned2 m (SIEnsure top o :: k)); [exact Hown|exact HQ0|].
+    intros t2 o2 Hne H. apply in_push. apply (in_tail_ne _ _ _ H). intros [= _ E]. congruence.
+  - (* SIOnEnsure *)
+    assert (HJ : forall pre, J s m (emb (pre ++ k))) by (intros pre; apply Hjdrop; discriminate).
+    assert (HQ : forall pre, Qs m (pre ++ k)) by (intros pre; apply Hqdrop; discriminate).
+    destruct (m o) as [os|] eqn:Hm; cbn [sc_st sc_obs sc_k]; [|split; [apply (HJ [])|apply (HQ [])]].
+    destruct (proj2 (HJ (if inl sync top then [SIDrain] else [])) o os Hm) as (F & C & Lv).
+    destruct (so_on_fields t (r_so os)) as (E1 & E2 & E3 & E4).
+    assert (Hk' : drain_if sync top k = (if inl sync top then [SIDrain] else []) ++ k)
+      by (unfold drain_if; destruct (inl sync top); reflexivity).
+    rewrite Hk'.
+    assert (F' : so_faulted (so_on t (r_so os)) = false) by now rewrite E1.
+    pose proof (J_ensure_active s m _ o (so_on t (r_so os)) (set_so os (snd (ensure_active o s (so_on t (r_so os)))))
+                  (HJ (if inl sync top then [SIDrain] else [])) F') as HJ2.
+    pose proof (ensure_active_owned o s (so_on t (r_so os)) F') as Hown.
+    destruct (ensure_active o s (so_on t (r_so os))) as [s' so']. cbn [fst snd sc_st sc_obs sc_k] in *.
+    split; [apply HJ2; [now rewrite E4|now rewrite E3, E2|reflexivity]|].
+    apply Qs_upd_owned; [exact Hown|apply HQ].
+  - (* SIDeliver *)
+    assert (HJ : forall pre, J s m (emb (pre ++ k))) by (intros pre; apply Hjdrop; discriminate).
+    assert (HQ : forall pre, Qs m (pre ++ k)) by (intros pre; apply Hqdrop; discriminate).
+    destruct (m o) as [os|] eqn:Hm; cbn [sc_st sc_obs sc_k]; [|split; [apply (HJ [])|apply (HQ [])]].
+    destruct (ra_stopped os) eqn:Hst; cbn [sc_st sc_obs sc_k]; [split; [apply (HJ [])|apply (HQ [])]|].
+    assert (Hgen : forall stop pre, J s (rupd m o (rcalled stop os)) (emb (pre ++ k)) /\
+                                    Qs (rupd m o (rcalled stop os)) (pre ++ k)).
+    { intros stop pre. split.
+      - apply (J_upd_ado s m _ o os); [exact Hm|reflexivity| |apply HJ].
+        cbn. intros H. apply orb_false_iff in H. tauto.
+      - apply (Qs_upd_same m _ o os); [exact Hm|reflexivity|reflexivity| |apply HQ].
+        cbn. intros H. apply orb_false_iff in H. tauto. }
+    destruct n as [v|e|]; cbn [sc_st sc_obs sc_k].
+    + apply Hgen.
+    + change (SIAdoFin o :: k) with ([SIAdoFin o] ++ k). rewrite app_assoc. apply Hgen.
+    + change (SIAdoFin o :: k) with ([SIAdoFin o] ++ k). rewrite app_assoc. apply Hgen.
+  - (* SIAdoFin *)
+    assert (HJ : forall pre, J s m (emb (pre ++ k))) by (intros pre; apply Hjdrop; discriminate).
+    assert (HQ : forall pre, Qs m (pre ++ k)) by (intros pre; apply Hqdrop; discriminate).
+    destruct (m o) as [os|] eqn:Hm; cbn [sc_st sc_obs sc_k]; [|split; [apply (HJ [])|apply (HQ [])]].
+    pose proof (J_rado_dispose s m _ o os (HJ []) Hm) as HJ2. pose proof (rado_dispose_stopped s os o) as Hst.
+    destruct (rado_dispose s os o) as [s' os']. cbn [fst snd sc_st sc_obs sc_k] in *.
+    split; [exact HJ2|]. apply Qs_upd_stopped; [exact Hst|apply (HQ [])].
+  - (* SIResched *)
+    cbn [sc_st sc_obs sc_k]. split; [apply J_resched; exact HJ0|]. apply (Hqdrop []). discriminate.
+  - (* SIHandle *)
+    assert (HJ : forall pre, J s m (emb (pre ++ k))) by (intros pre; apply Hjdrop; discriminate).
+    assert (HQ : forall pre, Qs m (pre ++ k)) by (intros pre; apply Hqdrop; discriminate).
+    destruct (m o) as [os|] eqn:Hm; cbn [sc_st sc_obs sc_k]; [|split; [apply (HJ [])|apply (HQ [])]].
+    split.
+    + apply (J_upd_ado s m _ o os); [exact Hm|reflexivity|cbn; tauto|apply (HJ [])].
+    + apply (Qs_upd_same m _ o os); [exact Hm|reflexivity|reflexivity|cbn; tauto|apply (HQ [])].
+  - (* SIDrain *)
+    assert (HQ : forall pre, Qs m (pre ++ k)) by (intros pre; apply Hqdrop; discriminate).
+    destruct (r_sched s) as [|[[it o] cancelled] rest] eqn:Es; cbn [sc_st sc_obs sc_k].
+    { split; [apply (Hjdrop []); discriminate|apply (HQ [])]. }
+    destruct cancelled; cbn [sc_st sc_obs sc_k].
+    { split; [|apply (HQ [SIDrain])]. apply (J_pop s m _ it o true rest _ Es HJ0); [auto|discriminate]. }
+    destruct (m o) as [os|] eqn:Hm; cbn [sc_st sc_obs sc_k].
+    2:{ split; [|apply (HQ [SIDrain])]. apply (J_pop s m _ it o false rest _ Es HJ0); [auto|].
+        intros _ os Hm'. congruence. }
+    destruct (so_queue (r_so os)) as [|n q] eqn:Hq; cbn [sc_st sc_obs sc_k].
+    + set (so' := SoState (so_stopped (r_so os)) [] false (so_faulted (r_so os))
+                          (ser_disposed (r_so os)) (ser_cur (r_so os))).
+      split.
+      * assert (HJm : J s (rupd m o (set_so os so')) (emb (SIDrain :: k))).
+        { destruct HJ0 as [H1 H3]. split; [exact H1|]. intros o2 os2. unfold rupd.
+          destruct (Nat.eqb o2 o) eqn:E; [|apply H3].
+          apply Nat.eqb_eq in E. subst o2. intros [= <-]. destruct (H3 o os Hm) as (F & C & Lv).
+          unfold so_J. cbn. split; [exact F|]. split; [exact C|]. intros Hs.
+          destruct (Lv Hs) as [D _]. split; [exact D|discriminate]. }
+        apply (J_pop s _ _ it o false rest _ Es HJm); [auto|].
+        intros _ os2. rewrite rupd_same. intros [= <-] _ Ha. discriminate.
+      * apply Qs_upd_owned; [reflexivity|apply (HQ [SIDrain])].
+    + set (so' := SoState (so_stopped (r_so os)) q (so_acquired (r_so os)) (so_faulted (r_so os))
+                          (ser_disposed (r_so os)) (ser_cur (r_so os))).
+      split.
+      * assert (HJm : J s (rupd m o (set_so os so')) (emb (SIDrain :: k))).
+        { apply (J_upd_so s m _ o os so' Hm); try reflexivity. exact HJ0. }
+        apply (J_pop s _ _ it o false rest _ Es HJm).
+        -- intros o2 H. cbn. right. exact H.
+        -- intros _ _ _ _ _. cbn. now left.
+      * intros o2 os2. unfold rupd. destruct (Nat.eqb o2 o) eqn:E.
+        -- apply Nat.eqb_eq in E. subst o2. intros [= <-] Hs Ha. cbn in Ha |- *.
+           destruct (HQ0 o os Hm Hs Ha) as [H|[t2 H]]; [rewrite H in Hq; discriminate|].
+           right. exists t2. right. right. right. apply (in_tail_ne _ _ _ H). discriminate.
+        -- intros Hm2 Hs Ha. destruct (HQ0 o2 os2 Hm2 Hs Ha) as [H|[t2 H]]; [now left|].
+           right. exists t2. right. right. right. apply (in_tail_ne _ _ _ H). discriminate.
+Qed.
+
+Theorem K2_step c : K2 c -> K2 (sstep c).
+Proof.
+  intros HK. pose proof HK as (I & _ & _ & HM).
+  split; [now apply sstep_inv|]. destruct (JQs_step c HK) as [HJ HQ].
+  split; [exact HJ|]. split; [exact HQ|now apply Ms_step].
+Qed.
 
 End SchedB.
+
+Lemma K2_init {A} (sync : bool) (react : nat -> nat -> list (@rop A)) (bs w : option Z) (top : list (@rop A)) :
+  K2 sync (bufsize_of bs) w (sinit_cfg sync bs w top).
+Proof.
+  split; [apply (SInv_init sync react)|]. split; [|split].
+  - split; [split; cbn; [constructor|intros i []]|]. intros o os H. discriminate.
+  - intros o os H. discriminate.
+  - split; [|cbn; intros H; congruence]. cbn [sinit_cfg sc_k]. destruct sync.
+    + induction top as [|p t IH]; cbn; [exact I|]. split; [discriminate|exact IH].
+    + induction top as [|p t IH]; cbn; [exact I|]. split; [intros _; now left|]. split; [discriminate|exact IH].
+Qed.
+
+(* C22, both scheduler modes, arbitrary call trees: nothing is lost *)
+Theorem sched_nothing_lost {A} (sync : bool) (react : nat -> nat -> list (@rop A)) (bs w : option Z)
+        (top : list (@rop A)) (fuel o : nat) os :
+  let c := srun sync react fuel (sinit_cfg sync bs w top) in
+  sc_obs c o = Some os -> ra_stopped os = false ->
+  rview o (slog_of c) ++ sinflight o (sc_k c) ++ so_queue (r_so os) ++ spend o (sc_k c)
+  = xview (bufsize_of bs) w o false rg_init (ops_of (slog_of c)).
+Proof.
+  cbv zeta. intros Hm Hs.
+  assert (I : SInv (bufsize_of bs) w (srun sync react fuel (sinit_cfg sync bs w top))).
+  { apply (srun_ind sync react (SInv (bufsize_of bs) w)); [apply sstep_inv|apply (SInv_init sync react)]. }
+  destruct (sinv_some _ _ _ I o os Hm) as [_ [X' (EX & Hok & _)]]. unfold obs_ok in Hok. rewrite Hs in Hok.
+  destruct Hok as [H1 _]. unfold slog_of. fold (lops (sc_rlog (srun sync react fuel (sinit_cfg sync bs w top)))).
+  fold (lview o (sc_rlog (srun sync react fuel (sinit_cfg sync bs w top)))).
+  change (xview (bufsize_of bs) w o false rg_init (lops ?l)) with (lx (bufsize_of bs) w l o).
+  rewrite EX, <- H1, <- !app_assoc. reflexivity.
+Qed.
+
+(* C22, both scheduler modes, arbitrary call trees: when the run has finished an
+   observer that has not unsubscribed has received exactly its entitlement *)
+Theorem sched_complete {A} (sync : bool) (react : nat -> nat -> list (@rop A)) (bs w : option Z)
+        (top : list (@rop A)) (fuel o : nat) os :
+  let c := srun sync react fuel (sinit_cfg sync bs w top) in
+  sc_k c = [] -> sc_obs c o = Some os ->
+  (ra_stopped os = false \/ has_term (rview o (slog_of c)) = true) ->
+  rview o (slog_of c) = xview (bufsize_of bs) w o false rg_init (ops_of (slog_of c)).
+Proof.
+  cbv zeta. intros Hk Hm Hcase.
+  set (c := srun sync react fuel (sinit_cfg sync bs w top)) in *.
+  assert (HK : K2 sync (bufsize_of bs) w c).
+  { apply (srun_ind sync react (K2 sync (bufsize_of bs) w)); [intros c0; apply (K2_step sync react)|apply (K2_init sync react)]. }
+  destruct HK as (I & HJ & HQ & [_ HM]).
+  destruct (ra_stopped os) eqn:Hs.
+  - destruct Hcase as [|Ht]; [discriminate|].
+    apply prefix_with_terminal_is_all; [|exact Ht].
+    exact (SInv_prefix react (bufsize_of bs) w c o I).
+  - destruct (sinv_some _ _ _ I o os Hm) as [_ [X' (EX & Hok & _)]]. unfold obs_ok in Hok. rewrite Hs in Hok.
+    destruct Hok as [Heq _]. rewrite Hk in Heq, EX. cbn [sinflight spend app] in Heq, EX. rewrite app_nil_r in EX.
+    assert (Hq : so_queue (r_so os) = []).
+    { destruct (so_acquired (r_so os)) eqn:Ha.
+      - exfalso. destruct (proj2 HJ o os Hm) as (_ & _ & Lv). destruct (Lv Hs) as [_ R].
+        destruct (R Ha) as [[i Hi]|Hin].
+        + assert (Hne : r_sched (sc_st c) <> []) by (intros E; rewrite E in Hi; destruct Hi).
+          specialize (HM Hne). rewrite Hk in HM. destruct HM.
+        + rewrite Hk in Hin. destruct Hin.
+      - destruct (HQ o os Hm Hs Ha) as [H|[t H]]; [exact H|]. rewrite Hk in H. destruct H. }
+    rewrite Hq, app_nil_r in Heq. unfold slog_of. fold (lview o (sc_rlog c)). fold (lops (sc_rlog c)).
+    change (xview (bufsize_of bs) w o false rg_init (lops ?l)) with (lx (bufsize_of bs) w l o).
+    now rewrite EX.
+Qed.
+
+(* ========================================================================== *)
+(* Part C: grammar, and "a stopped wrapper never delivers again", both modes   *)
+(* ========================================================================== *)
+Section SchedC.
+Context {A : Type} (sync : bool) (react : nat -> nat -> list (@rop A)).
+Notation sstep := (sstep sync react).
+Notation srun := (srun sync react).
+
+Definition sstep_shape (c c' : @scfg A) : Prop :=
+  rmono (sc_obs c) (sc_obs c') /\
+  ((exists evs, sc_rlog c' = evs ++ sc_rlog c /\ rnoGot evs) \/
+   (exists pre o n os', sc_rlog c' = REGot o n :: pre ++ sc_rlog c /\ rnoGot pre /\
+      (forall os, sc_obs c o = Some os -> ra_stopped os = false) /\
+      sc_obs c' o = Some os' /\ (is_terminal n = true -> ra_stopped os' = true))).
+
+Local Ltac quiet := left;
+  first [ exists (@nil (@revent A)); split; [reflexivity|apply rnoGot_nil]
+        | eexists [_]; split; [reflexivity|apply rnoGot_op]
+        | eexists [_; _]; split; [reflexivity|apply rnoGot_raised] ].
+
+Lemma sstep_op_shape top p s m k l : sstep_shape (SCfg s m (SIOp top p :: k) l) (sstep_op sync react top p s m k l).
+Proof.
+  unfold sstep_shape, sstep_op. destruct p as [o|o|v|e| | |d]; cbn [sc_obs sc_rlog].
+  - destruct (m o) as [os|] eqn:Hm; cbn [sc_obs sc_rlog].
+    + split; [apply rmono_refl|quiet].
+    + destruct (r_disposed s); cbn [sc_obs sc_rlog].
+      * split; [now apply rmono_upd_new|]. right.
+        exists [REOp (RSub o)], o, (Err disposed_exn), (rcalled true fresh_rostate).
+        split; [reflexivity|]. split; [apply rnoGot_op|]. split; [intros os H; congruence|].
+        split; [apply rupd_same|reflexivity].
+      * match goal with |- context [ensure_active ?a ?b ?c] => destruct (ensure_active a b c) as [s3 so3] end.
+        destruct (inl sync top); cbn [sc_obs sc_rlog]; (split; [now apply rmono_upd_new|quiet]).
+  - destruct (m o) as [os|] eqn:Hm; cbn [sc_obs sc_rlog].
+    + destruct (r_handle os).
+      * destruct (rado_dispose s os o) as [s' os'] eqn:E. cbn [sc_obs sc_rlog].
+        split; [|quiet]. eapply rmono_upd; [exact Hm|]. intros _.
+        change os' with (snd (s', os')). rewrite <- E. apply rado_dispose_stopped.
+      * split; [apply rmono_refl|quiet].
+    + split; [apply rmono_refl|quiet].
+  - destruct (r_disposed s); cbn [sc_obs sc_rlog]; [split; [apply rmono_refl|quiet]|].
+    destruct (r_stopped s); cbn [sc_obs sc_rlog]; [split; [apply rmono_refl|quiet]|].
+    match goal with |- context [so_each ?f ?sn ?st m] =>
+      pose proof (so_each_mono f sn st m) as M1; destruct (so_each f sn st m) as [s2 m2] end.
+    cbn [sc_obs sc_rlog snd] in *. split; [assumption|quiet].
+  - destruct (r_disposed s); cbn [sc_obs sc_rlog]; [split; [apply rmono_refl|quiet]|].
+    destruct (r_stopped s); cbn [sc_obs sc_rlog]; split; try apply rmono_refl; quiet.
+  - destruct (r_disposed s); cbn [sc_obs sc_rlog]; [split; [apply rmono_refl|quiet]|].
+    destruct (r_stopped s); cbn [sc_obs sc_rlog]; split; try apply rmono_refl; quiet.
+  - split; [apply rmono_refl|quiet].
+  - destruct (d <? 0); cbn [sc_obs sc_rlog]; split; try apply rmono_refl; quiet.
+Qed.
+
+Lemma sstep_shape_holds c : sstep_shape c (sstep c).
+Proof.
+  destruct c as [s m k l]. unfold ReplaySched.sstep. cbn [sc_k sc_st sc_obs sc_rlog].
+  destruct k as [|i k].
+  - split; [apply rmono_refl|quiet].
+  - destruct i as [top p|top o|top o t|o n|o|o|o|].
+    + apply sstep_op_shape.
+    + unfold sstep_shape. cbn [sc_obs sc_rlog].
+      destruct (m o) as [os|] eqn:Hm; cbn [sc_obs sc_rlog]; [|split; [apply rmono_refl|quiet]].
+      destruct (ensure_active o s (r_so os)) as [s' so']. cbn [sc_obs sc_rlog].
+      split; [|quiet]. eapply rmono_upd; [exact Hm|]. intros H. exact H.
+    + unfold sstep_shape. cbn [sc_obs sc_rlog].
+      destruct (m o) as [os|] eqn:Hm; cbn [sc_obs sc_rlog]; [|split; [apply rmono_refl|quiet]].
+      destruct (ensure_active o s (so_on t (r_so os))) as [s' so']. cbn [sc_obs sc_rlog].
+      split; [|quiet]. eapply rmono_upd; [exact Hm|]. intros H. exact H.
+    + unfold sstep_shape. cbn [sc_obs sc_rlog].
+      destruct (m o) as [os|] eqn:Hm; cbn [sc_obs sc_rlog]; [|split; [apply rmono_refl|quiet]].
+      destruct (ra_stopped os) eqn:Hst; cbn [sc_obs sc_rlog]; [split; [apply rmono_refl|quiet]|].
+      destruct n as [v|e|]; cbn [sc_obs sc_rlog].
+      * split; [eapply rmono_upd; [exact Hm|]; intros; congruence|].
+        right. exists [], o, (Next v), (rcalled false os).
+        split; [reflexivity|]. split; [apply rnoGot_nil|].
+        split; [intros os2 H2; congruence|]. split; [apply rupd_same|discriminate].
+      * split; [eapply rmono_upd; [exact Hm|]; intros; congruence|].
+        right. exists [], o, (Err e), (rcalled true os).
+        split; [reflexivity|]. split; [apply rnoGot_nil|].
+        split; [intros os2 H2; congruence|]. split; [apply rupd_same|].
+        intros _. cbn. apply orb_true_r.
+      * split; [eapply rmono_upd; [exact Hm|]; intros; congruence|].
+        right. exists [], o, Done, (rcalled true os).
+        split; [reflexivity|]. split; [apply rnoGot_nil|].
+        split; [intros os2 H2; congruence|]. split; [apply rupd_same|].
+        intros _. cbn. apply orb_true_r.
+    + unfold sstep_shape. cbn [sc_obs sc_rlog].
+      destruct (m o) as [os|] eqn:Hm; cbn [sc_obs sc_rlog]; [|split; [apply rmono_refl|quiet]].
+      destruct (rado_dispose s os o) as [s' os'] eqn:E. cbn [sc_obs sc_rlog].
+      split; [|quiet]. eapply rmono_upd; [exact Hm|]. intros _.
+      change os' with (snd (s', os')). rewrite <- E. apply rado_dispose_stopped.
+    + unfold sstep_shape. cbn [sc_obs sc_rlog]. split; [apply rmono_refl|quiet].
+    + unfold sstep_shape. cbn [sc_obs sc_rlog].
+      destruct (m o) as [os|] eqn:Hm; cbn [sc_obs sc_rlog]; [|split; [apply rmono_refl|quiet]].
+      split; [|quiet]. eapply rmono_upd; [exact Hm|]. intros H. exact H.
+    + unfold sstep_shape. cbn [sc_obs sc_rlog].
+      destruct (r_sched s) as [|[[i o] cancelled] rest]; cbn [sc_obs sc_rlog]; [split; [apply rmono_refl|quiet]|].
+      destruct cancelled; cbn [sc_obs sc_rlog]; [split; [apply rmono_refl|quiet]|].
+      destruct (m o) as [os|] eqn:Hm; cbn [sc_obs sc_rlog]; [|split; [apply rmono_refl|quiet]].
+      destruct (so_queue (r_so os)) as [|n q]; cbn [sc_obs sc_rlog].
+      * split; [|quiet]. eapply rmono_upd; [exact Hm|]. intros H. exact H.
+      * split; [|quiet]. eapply rmono_upd; [exact Hm|]. intros H. exact H.
+Qed.
+
+Lemma sstopped_final_step c o os :
+  sc_obs c o = Some os -> ra_stopped os = true ->
+  rview o (slog_of (sstep c)) = rview o (slog_of c) /\
+  exists os', sc_obs (sstep c) o = Some os' /\ ra_stopped os' = true.
+Proof.
+  intros Ho Hs.
+  destruct (sstep_shape_holds c) as [Hmono [[evs [Hl Hng]]|[pre [o2 [n [os' [Hl [Hng [Hlive [Hos' Hterm]]]]]]]]]].
+  - split.
+    + unfold slog_of. rewrite Hl, rev_app_distr, rview_app.
+      rewrite (rview_noGot o (rev evs)) by now apply rnoGot_rev. now rewrite app_nil_r.
+    + destruct (Hmono o os Ho) as [os2 [H2 Hs2]]. eauto.
+  - split.
+    + unfold slog_of. rewrite Hl. cbn [rev]. rewrite rev_app_distr, !rview_app.
+      rewrite (rview_noGot o (rev pre)) by now apply rnoGot_rev. cbn [rview].
+      destruct (Nat.eqb o2 o) eqn:E.
+      * apply Nat.eqb_eq in E. subst o2. rewrite (Hlive os Ho) in Hs. discriminate.
+      * now rewrite !app_nil_r.
+    + destruct (Hmono o os Ho) as [os2 [H2 Hs2]]. eauto.
+Qed.
+
+Lemma srun_S n c : srun (S n) c = srun n (sstep c).
+Proof.
+  cbn. destruct (sc_k c) eqn:E; [|reflexivity].
+  assert (Hs : sstep c = c) by (unfold ReplaySched.sstep; now rewrite E). rewrite Hs.
+  destruct n; cbn; [reflexivity|now rewrite E].
+Qed.
+
+(* a stopped wrapper never delivers again, whatever is queued or scheduled *)
+Theorem sstopped_final n : forall c o os,
+  sc_obs c o = Some os -> ra_stopped os = true ->
+  rview o (slog_of (srun n c)) = rview o (slog_of c).
+Proof.
+  induction n as [|n IH]; intros c o os Ho Hs; [reflexivity|].
+  rewrite srun_S. destruct (sstopped_final_step c o os Ho Hs) as [Hv [os' [Ho' Hs']]].
+  rewrite (IH (sstep c) o os' Ho' Hs'). exact Hv.
+Qed.
+
+(* unsubscribing takes effect at once, also from inside a callback *)
+Theorem sunsubscribed_gets_nothing_more top s m k l o os n :
+  m o = Some os -> r_handle os = true ->
+  rview o (slog_of (srun n (SCfg s m (SIOp top (RUnsub o) :: k) l))) = rview o (rev l).
+Proof.
+  intros Hm Hh. destruct n as [|n]; [reflexivity|]. rewrite srun_S.
+  assert (Hst : exists os', sc_obs (sstep (SCfg s m (SIOp top (RUnsub o) :: k) l)) o = Some os' /\ ra_stopped os' = true).
+  { unfold ReplaySched.sstep. cbn [sc_k sc_st sc_obs sc_rlog sstep_op]. rewrite Hm, Hh.
+    destruct (rado_dispose s os o) as [s' os'] eqn:E. cbn [sc_obs]. exists os'. split; [apply rupd_same|].
+    change os' with (snd (s', os')). rewrite <- E. apply rado_dispose_stopped. }
+  destruct Hst as [os' [Ho' Hs']]. rewrite (sstopped_final n _ o os' Ho' Hs').
+  unfold ReplaySched.sstep. cbn [sc_k sc_st sc_obs sc_rlog sstep_op]. rewrite Hm, Hh.
+  destruct (rado_dispose s os o) as [s' os2]. unfold slog_of. cbn [sc_rlog rev].
+  rewrite rview_app. cbn. now rewrite app_nil_r.
+Qed.
+End SchedC.
+
+(* grammar: a prefix of the entitlement is well-formed *)
+Lemma wellformed_no_term {A} (l : list (ev A)) : has_term l = false -> wellformed l = true.
+Proof.
+  induction l as [|x l IH]; [reflexivity|]. unfold has_term. cbn [existsb]. intros H.
+  apply orb_false_iff in H. destruct H as [Hx Hl]. destruct x; [exact (IH Hl)|discriminate|discriminate].
+Qed.
+
+Lemma wellformed_prefix {A} (p r : list (ev A)) : wellformed (p ++ r) = true -> wellformed p = true.
+Proof.
+  induction p as [|x p IH]; intros H; [reflexivity|]. destruct x as [a|e|]; cbn [app wellformed] in *.
+  - now apply IH.
+  - destruct p; [reflexivity|discriminate].
+  - destruct p; [reflexivity|discriminate].
+Qed.
+
+Theorem sched_wellformed {A} (sync : bool) (react : nat -> nat -> list (@rop A)) (bs w : option Z)
+        (top : list (@rop A)) (fuel o : nat) :
+  wellformed (rview o (slog_of (srun sync react fuel (sinit_cfg sync bs w top)))) = true.
+Proof.
+  destruct (sched_prefix sync react bs w top fuel o) as [r Hr].
+  destruct (xview_shape (bufsize_of bs) w o
+              (ops_of (slog_of (srun sync react fuel (sinit_cfg sync bs w top)))) false rg_init)
+    as (l & t & E & Hn & Ht).
+  apply (wellformed_prefix _ r). rewrite <- Hr, E.
+  destruct Ht as [->|[x ->]]; [rewrite app_nil_r; now apply wellformed_no_term|].
+  rewrite wellformed_snoc, Hn, (wellformed_no_term l Hn). reflexivity.
+Qed.
